@@ -31,6 +31,7 @@ THEOREMS = [
     "C24.autoconnect_stays_connected",
     "C24.multicast_subscriber_sees_subject_suffix",
     "C24.late_subscriber_gets_terminal",
+    "C24.multicast_factory_one_source_subscription",
     "C24.sync_one_source_subscription",
     "C24.connect_reentrant_noop",
 ]
@@ -39,11 +40,11 @@ RULE = ("histories of 3-14 calls (subscribe/unsubscribe of up to 5 subscribers, 
         "never ending; subject kinds plain (publish, multicast(Subject()), share), BehaviorSubject (publish_value), ReplaySubject(buffer 0..3 "
         "or unbounded); wrappers raw connectable / ref_count / auto_connect(0..3); plus multicast(subject_factory, mapper) with mapper = "
         "identity or merge(c, c); plus 'sync' cases: a source that emits 0-3 values (and maybe a terminal) from inside its subscribe(), "
-        "publish / publish_value, raw connectable and two ref_count views, subscribers that connect() / subscribe (to any view) / dispose another "
-        "subscription from inside on_next (nested up to depth 2), top-level connect/disconnect/unsubscribe/push. Non-trivial: at least two different call kinds and at least one delivery. Distinct by canonical JSON.")
+        "publish / publish_value / replay(0..2|unbounded), raw connectable and two ref_count views, subscribers that connect() / subscribe (to any view) / dispose another "
+        "subscription / make the source emit from inside on_next (nested up to depth 2), top-level connect/disconnect/unsubscribe/push. Non-trivial: at least two different call kinds and at least one delivery. Distinct by canonical JSON.")
 ASSUMPTIONS = [
     "single-threaded virtual-time execution on reactivex.testing.TestScheduler; sources are its cold/hot observables",
-    "virtual-time cases: subscribers are passive recorders; sync cases: subscribers may connect/subscribe/dispose others from inside on_next, but do not make the source emit from inside on_next (nested deliveries reorder what later observers of the snapshot see) and are not ReplaySubject-backed (its trampolined delivery is the subject family's business)",
+    "virtual-time cases: subscribers are passive recorders; sync cases: subscribers may connect/subscribe/dispose others and make the source emit from inside on_next, over Subject, BehaviorSubject and count-bounded ReplaySubject (ScheduledObserver + the thread's trampoline, incl. Observable.subscribe's own trampolining, are modelled); where nested emission or trampolined delivery reorders what an observer sees, the property oracle compares multisets (the model correspondence stays exact)",
     "ReplaySubject only with a count bound and its default scheduler (the time window is the subject family's business)",
     "auto_connect is modelled as written: it counts the subscribers currently present (count is decremented on unsubscribe), not the arrivals",
 ]
@@ -139,7 +140,7 @@ def cases(rng, tier):
 
 def model_request(case):
     if case["op"] == "sync_run":
-        return case
+        return {k: v for k, v in case.items() if not (k == "buf" and v is None)}
     c = {k: v for k, v in case.items() if k not in ("via",)}
     if c.get("buf", 0) is None:
         c.pop("buf")
@@ -160,9 +161,11 @@ def gen_sync_cases(rng, tier):
             sync.append(["C"])
         elif r < 0.18:
             sync.append(["E", "s0"])
-        c = {"op": "sync_run", "subject": rng.choice(["plain", "plain", "behavior"]), "sync": sync, "actions": [], "ops": []}
+        c = {"op": "sync_run", "subject": rng.choice(["plain", "plain", "behavior", "replay"]), "sync": sync, "actions": [], "ops": []}
         if c["subject"] == "behavior":
             c["init"] = 9
+        if c["subject"] == "replay":
+            c["buf"] = rng.choice([None, 0, 1, 2])
         nxt = [0]
         nconn = [0]
 
@@ -179,11 +182,12 @@ def gen_sync_cases(rng, tier):
                     act = new_sub(depth + 1)
                 elif k < 0.75:
                     act = ["connect"]
-                elif i > 0:
+                elif k < 0.88 and i > 0:
                     act = ["unsub", rng.randrange(i)]
                 else:
-                    act = ["connect"]
-                # (no emission from inside on_next: nested deliveries reorder what later observers of the snapshot see)
+                    # the source emits from inside on_next: nested deliveries reorder what later observers of the snapshot see
+                    # (compared exactly with the model; the property oracle then compares as multisets)
+                    act = ["push", ["N", 50 + a]]
                 c["actions"][a] = act
                 react = [rng.choice([1, 1, 2]), a]
             return ["sub", i, view, react]
@@ -236,7 +240,12 @@ def impl_sync(case):
         return Disposable(lambda: state["open"].discard(k))
 
     src = rx.Observable(subscribe)
-    conn = src.pipe(ops.publish() if case["subject"] == "plain" else ops.publish_value(case["init"]))
+    if case["subject"] == "plain":
+        conn = src.pipe(ops.publish())
+    elif case["subject"] == "behavior":
+        conn = src.pipe(ops.publish_value(case["init"]))
+    else:
+        conn = src.pipe(ops.replay(buffer_size=case.get("buf")))
     # what the shared subject receives, with the event clock (the subject is the connectable's own object)
     feed = []
     subject = conn.subject
@@ -338,7 +347,16 @@ def oracle_sync(case, o):
         cut = o["_marks"][i][2] if len(o["_marks"][i]) > 2 else None  # unsubscribed while this subject input was being delivered
         got = list(lg)
         if term is not None and term[0] < a:
-            # subscribed to a stopped subject: exactly its terminal
+            # subscribed to a stopped subject: exactly its terminal (a replay subject: its buffer first)
+            if case["subject"] == "replay":
+                before = [["N", n[1]] for t, n in feed if t < a and n[0] == "N"]
+                buf = case.get("buf")
+                keep = before if buf is None else (before[-buf:] if buf > 0 else [])
+                full = keep + [term[1]]
+                if b is not None and got == full[:len(got)]:
+                    continue  # unsubscribed while its (trampolined) replay was still being delivered
+                if got[:len(keep)] == keep:
+                    got = got[len(keep):]
             if got != [term[1]]:
                 return f"subscriber {i} subscribed after the shared subject had terminated with {term[1]} but received {lg}"
             continue
@@ -349,11 +367,36 @@ def oracle_sync(case, o):
             if not got or got[0] != cur:
                 return f"subscriber {i} of a publish_value observable did not first receive the current value {cur}: {lg}"
             got = got[1:]
+        if case["subject"] == "replay":
+            # first the buffered values: the last `buf` values the subject received before
+            before = [["N", n[1]] for t, n in feed if t < a and n[0] == "N"]
+            buf = case.get("buf")
+            keep = before if buf is None else (before[-buf:] if buf > 0 else [])
+            if b is not None and got == keep[:len(got)]:
+                continue  # unsubscribed while its (trampolined) replay was still being delivered
+            if got[:len(keep)] != keep:
+                return f"subscriber {i} of a replay observable did not first receive the buffered values {keep}: {lg}"
+            got = got[len(keep):]
         exp = [n for t, n in feed if t > a and (b is None or t < b) and t != cut]
         if cut is not None and cut > a:
             inflight_n = [n for t, n in feed if t == cut]
             if got and inflight_n and got[-1] == inflight_n[0] and got[:-1] == exp:
                 exp = exp + inflight_n  # it had already received that value when it was unsubscribed
+        reordering = any(x[0] == "push" for x in case["actions"]) or case["subject"] == "replay"
+        if reordering:
+            # nested emission / trampolined delivery: same notifications, possibly in another order, or cut short by its own unsubscription
+            window = [n for t, n in feed if t > a and (b is None or t < b)]  # including a value in flight at its unsubscription
+
+            def submultiset(x, y):
+                y = list(map(fw.key, y))
+                for g in map(fw.key, x):
+                    if g not in y:
+                        return False
+                    y.remove(g)
+                return True
+            ok = sorted(map(fw.key, got)) == sorted(map(fw.key, exp)) or (b is not None and submultiset(got, window))
+            if ok:
+                continue
         if got != exp:
             return (f"subscriber {i} received {lg} but the shared subject received {exp} between its subscribe call and its "
                     f"unsubscription/termination (subject input with clock: {feed}, subscriber window {a}..{b})")
@@ -724,6 +767,6 @@ LEVEL_TEXT = ("Lean theorems over the Connectable model, for every history of su
 LEVEL_NOTE = ("Two models: virtual-time histories with passive subscribers (Conn.lean) and synchronous sources with re-entrant calls from callbacks "
               "(ConnSync.lean, an explicit call-stack machine; theorem: never two open source subscriptions under any reactions); both run against the real code. "
               "Model = single-threaded semantics; ReplaySubject only count-bounded with its default scheduler; "
-              "multicast(subject_factory, mapper) is covered by the correspondence and the oracle (mapper = identity / merge(c, c)) but has no theorem of "
-              "its own. auto_connect is modelled and proved as written (it counts subscribers currently present, its docstring says 'after that many "
+              "multicast(subject_factory, mapper): `multicast_factory_one_source_subscription` (exactly one source subscription per outer subscription, at its time, released at the end), "
+              "mapper = identity / merge(c, c) in the correspondence. auto_connect is modelled and proved as written (it counts subscribers currently present, its docstring says 'after that many "
               "subscriptions occur'); histories in which subscribers leave before the n-th arrives are accepted with the as-written reading.")
